@@ -919,6 +919,10 @@ def fmtOf : Nat → Bytes → Res Unit
       | _ => .panic .unreachable
     else pure ()
 
+/-- `TLVSequence::fmt` (the body of `Display` / `Debug` of `TLVSequence` and of `TLVSequenceIter`):
+`for elem in self.iter() { elem.map_err(fmt::Error)?.fmt(indent, f)? }` -/
+def seqFmtOf (seq : Bytes) : Res Unit := fmtSeq (fmtOf (seq.length + 1)) (elements seq)
+
 /-! ## Re-encoding a decoded element (`ToTLV for TLVElement`) -/
 
 /-- `elem.to_tlv(&elem.tag()?, tw)`: control + tag + (length field) + `raw_value()` -/
